@@ -12,7 +12,7 @@
                                notifier.Connected, EReturnPeer = Connect hands the peer to its caller,
                                EClosePeer = the connection is closed, EBlock d);
      has_notifier, add       = whether a notifier is set, and the outcome of peers.addPeer
-                               (all three outcomes are covered).
+                               (both outcomes are covered).
    All theorems hold for every script (any length, any contents), every oracle, every write-failure
    pattern, every local configuration. *)
 From Coq Require Import String List NArith ZArith Bool.
@@ -55,6 +55,17 @@ Theorem C04_initiator : forall c o wfail script add A T,
     res (handshake c o wfail script) = Enrol A T.
 Proof. exact initiator_sound. Qed.
 Print Assumptions C04_initiator.
+
+(* The rest of the node is told "connected (A, T)" only together with, and right after, the registration
+   that actually added the peer, and only on an admissible transcript: the inbound effects are then
+   exactly [Register; Notify].  (Before the repair of addPeer a peer on an already closed connection
+   was announced without being registered: Handshake_proofs.handle_connect_req_v0_refuted.) *)
+Theorem C04_notify_only_after_register : forall c o wfail script has_notifier add A T,
+  In (ENotify A T) (inbound c o wfail script has_notifier add) ->
+  inbound c o wfail script has_notifier add = [ERegister A T; ENotify A T] /\
+  add = Added /\ resp_ok c o wfail script A T.
+Proof. exact notify_only_after_register. Qed.
+Print Assumptions C04_notify_only_after_register.
 
 (* The handshake result is Enrol (A, T) exactly for the admissible transcripts
    (resp_ok / init_ok: request proving (A, role) + echo of our own (address, role), no failed write). *)
